@@ -558,6 +558,25 @@ class _Alias:
                 return None
             if isinstance(f, ast.Attribute) and ln in FRESH_RESULT_METHODS:
                 return None
+            # a one-expression helper newer than the rules (`self._copy_node_data(self._data)`): what it returns, with
+            # its parameters standing for the arguments
+            prog = getattr(self, "prog", None)
+            h = None
+            if prog is not None and not e.keywords and not any(isinstance(a, ast.Starred) for a in e.args):
+                if isinstance(f, ast.Attribute) and isinstance(f.value, ast.Name) and f.value.id in (self.self_name, "cls", "self") and self.fi.cls is not None:
+                    h = prog.method(self.fi.cls, f.attr)
+                elif isinstance(f, ast.Name):
+                    h = prog.resolve_function(f.id, self.fi.module)
+            if h is not None and prog.is_new_function(h) and len(stack) < 6:
+                body = [st for st in h.node.body if not (isinstance(st, ast.Expr) and isinstance(st.value, ast.Constant))]
+                params = [a.arg for a in h.node.args.posonlyargs + h.node.args.args]
+                if h.cls is not None and "staticmethod" not in h.decorators:
+                    params = params[1:]
+                if len(body) == 1 and isinstance(body[0], ast.Return) and body[0].value is not None and len(params) == len(e.args):
+                    env2 = dict(env or {})
+                    for p_, a_ in zip(params, e.args):
+                        env2[p_] = self.shared(a_, env, stack)
+                    return self.shared(body[0].value, env2, stack + ("<" + h.name + ">",))
             raise AnalysisError("M4: %s: unrecognised source expression %s" % (self.fi.qualname, u(e)))
         raise AnalysisError("M4: %s: unrecognised source expression %s" % (self.fi.qualname, u(e)))
 
@@ -670,6 +689,7 @@ def rule_M4(ctx, fx):
         me = fx.self_name(fi)
         sources = [p for p in fi.params if p not in (me, "cls")]
         al = _Alias(fi, me, sources, depth)
+        al.prog = prog
         fn = fx.fn(fi)
         results = _result_names(fi, me)
         n_inst = 0
